@@ -1,8 +1,8 @@
 (* C15  Spatial search, sampling and hulls agree with exhaustive computation. *)
 From Coq Require Import ZArith Reals List Lra Lia Sorted.
 From Flocq Require Import Core.Raux.
-From EG Require Import Num.Num Num.RNum Lib.Vec Model.Types Model.Curve Model.Closest Model.Spatial Model.Hull.
-From EG Require Import Proofs.VecR Proofs.Spatial Proofs.Hull.
+From EG Require Import Num.Num Num.RNum Lib.Vec Model.Types Model.Curve Model.Closest Model.Spatial Model.Hull Model.Sampling.
+From EG Require Import Proofs.VecR Proofs.Spatial Proofs.Hull Proofs.Sampling.
 Import ListNotations.
 Local Open Scope R_scope.
 
@@ -52,3 +52,27 @@ Theorem C15_order_direction : forall (l1 l2 : list nat), l2 <> [] -> (3 <= lengt
   (StronglySorted gt (l1 ++ l2) -> order_ccw (l2 ++ l1) = false).
 Proof. exact order_direction_spec. Qed.
 Print Assumptions C15_order_direction.
+
+(* mesh sampling: every point of the dense sample is a convex combination of the corners of a face of the mesh (lies on that face),
+   whatever the spacing ... *)
+Theorem C15_dense_on_mesh : forall (fuel : nat) (verts : list (@V3 RNum)) (faces : list (nat * nat * nat)) (s : R) (q : @V3 RNum),
+  In q (@sample_dense RNum fuel verts faces s) ->
+  exists i j k, In (i, j, k) faces /\ in_tri (nth i verts (0, 0, 0)) (nth j verts (0, 0, 0)) (nth k verts (0, 0, 0)) q.
+Proof. exact sample_dense_on_mesh. Qed.
+Print Assumptions C15_dense_on_mesh.
+
+(* ... the uniform sample for any two draws in [0, 1] lies on its face ... *)
+Theorem C15_uniform_on_face : forall (a b c : @V3 RNum) (r1 r2 : R), 0 <= r1 <= 1 -> 0 <= r2 <= 1 ->
+  in_tri a b c (@uniform_point RNum a b c r1 r2).
+Proof. exact uniform_point_on_face. Qed.
+Print Assumptions C15_uniform_on_face.
+
+(* ... and a draw r selects face i exactly when it falls in the i-th interval of the running totals of the areas, an interval as
+   long as the area of face i: faces are hit in proportion to area *)
+Theorem C15_uniform_face_interval : forall (areas : list R) (r : R),
+  let cum := @cumulative RNum 0 areas in let i := @count_below RNum cum r in
+  (i < length areas)%nat ->
+  (match i with O => 0 | S i' => nth i' cum 0 end) + nth i areas 0 = nth i cum 0 /\
+  (match i with O => True | S i' => nth i' cum 0 < r end) /\ r <= nth i cum 0.
+Proof. exact uniform_face_interval. Qed.
+Print Assumptions C15_uniform_face_interval.
